@@ -321,19 +321,26 @@ def rounding_table(ck, rule_dir, rule_exh, rule_pass):
         e, casts = peel(pf.ret)
         true_guards = [g for g in pf.guards if g[1]]
         if not keys_true:
-            # pass-through branch(es): must be guarded by an integer/object carrier test only
-            if dotted(e) == vp and true_guards:
-                g = true_guards[-1]
-                bad_disj = _non_integer_disjuncts(g[0], vp)
-                if _mode_none_guard(g[0], mp):
-                    ck.ok(rule_pass, rnd, "identity branch for method None/'' (unreachable: Config.rounding rejects both)", g[3], nontrivial=False)
+            # pass-through path: some guard taken True must establish that the value is an integer carrier, and nothing else
+            # (in particular no rounding mode) may select it
+            if dotted(e) == vp:
+                tg = [g for g in true_guards if not (isinstance(g[0], ast.Constant))]
+                if any(_mode_none_guard(g[0], mp) for g in tg):
+                    ck.ok(rule_pass, rnd, "identity branch for method None/'' (unreachable: Config.rounding rejects both)", pf.ret_stmt, nontrivial=False)
                     continue
-                passthrough_seen = True
-                ck.check(not bad_disj, rule_pass, rnd, "values are passed through unrounded only when they are integers (int / integer dtype / object carrier)",
-                         "pass-through guard contains %s" % [src(x) for x in bad_disj], g[3],
-                         "non-integer values would be stored without the configured rounding")
-            elif dotted(e) == vp:
-                ck.bad(rule_pass, rnd, "unrounded pass-through is guarded by an integer test", "unconditional identity return", pf.ret_stmt)
+                integer_evidence = [g for g in tg if not _non_integer_disjuncts(g[0], vp)]
+                other = [g for g in tg if _non_integer_disjuncts(g[0], vp)]
+                passthrough_seen = passthrough_seen or bool(integer_evidence)
+                if not integer_evidence:
+                    ck.bad(rule_pass, rnd, "values are passed through unrounded only when they are integers (int / integer dtype / object carrier)",
+                           "unrounded return under %s" % [(src(g[0])[:60], g[1]) for g in pf.guards], pf.ret_stmt,
+                           "non-integer values would be stored without the configured rounding")
+                elif other:
+                    ck.bad(rule_pass, rnd, "values are passed through unrounded only when they are integers (int / integer dtype / object carrier)",
+                           "pass-through additionally selected by %s" % [src(g[0])[:60] for g in other], other[0][3],
+                           "non-integer values would be stored without the configured rounding")
+                else:
+                    ck.ok(rule_pass, rnd, "unrounded pass-through is selected by integer-carrier tests only", pf.ret_stmt)
             else:
                 ck.bad(rule_dir, rnd, "every rounding primitive is selected by a mode name", "return %s without a mode guard" % src(pf.ret)[:80], pf.ret_stmt)
             continue
